@@ -30,7 +30,7 @@ class Unsupported(Exception):
 
 LEAN_TYPE = {"lock": "Nat", "task": "Nat", "ptask": "Nat", "opttask": "Option Nat", "optlock": "Option Nat",
              "rat": "Rat", "optrat": "Option Rat", "bool": "Bool", "ratlist": "List Rat",
-             "optratlist": "List (Option Rat)", "entry": "Waiter", "myentry": "Nat", "unit": "Unit"}
+             "optratlist": "List (Option Rat)", "boollist": "List Bool", "entry": "Waiter", "myentry": "Nat", "unit": "Unit"}
 OPT_OF = {"opttask": "task", "optlock": "lock", "optrat": "rat"}
 TO_OPT = {v: k for k, v in OPT_OF.items()}
 TO_OPT["ptask"] = "opttask"
@@ -194,7 +194,7 @@ class FnTr:
 
     def new(self, base):
         self.fresh += 1
-        return f"{base}_{self.fresh}"
+        return f"{str(base).replace('.', '_').strip('_') or 'v'}_{self.fresh}"
 
     # ------------------------------------------------------------------ results
     def ok(self, val):
@@ -263,6 +263,12 @@ class FnTr:
                 return Val("optlock", f"(waitingOnOf s {base.term})")
             if name == "priority_value":
                 return Val("rat", f"(priorityValue s {base.term})")
+        methods = {"lock": set(self.u.classes["PriorityLock"]), "ptask": set(self.u.classes["PriorityTask"]),
+                   "pq": {"add", "remove", "reschedule", "peek"}, "fut": {"done", "set_result"},
+                   "lockset": {"add", "remove"}, "ratlist": {"append"}}
+        if name in methods.get(k, ()):
+            self.fresh += 1
+            return Val("boundmethod", None, (base, name, f"_bound{self.fresh}"))
         raise Unsupported(f"attribute .{name} of a {k} ({src[:60]})")
 
     def ifexp(self, e, env):
@@ -315,8 +321,22 @@ class FnTr:
             raise Unsupported("generator expression with several `for`")
         g = e.generators[0]
         it, elem_kind, elem_var = self.iterable(g.iter, env)
+        if isinstance(g.target, ast.Tuple) and isinstance(elem_kind, tuple) and len(g.target.elts) == 2 \
+                and all(isinstance(t, ast.Name) for t in g.target.elts) and not g.ifs:
+            v = self.new("w")
+            parts = [Val("fut", v, elem_kind[1]), Val("weak", f"{v}.task", "task")]
+            env2 = dict(env)
+            for t, p_ in zip(g.target.elts, parts):
+                if t.id != "_":
+                    env2[t.id] = p_
+            elt = self.val(e.elt, env2)
+            if elt.kind not in LIST_OF:
+                raise Unsupported(f"generator expression of {elt.kind}")
+            return Val(LIST_OF[elt.kind], f"({it}.map (fun ({v} : Waiter) => {elt.term}))")
         if not isinstance(g.target, ast.Name):
             raise Unsupported("generator expression with a tuple target")
+        if isinstance(elem_kind, tuple):
+            raise Unsupported("generator expression over queue entries without unpacking them")
         v = self.new(g.target.id)
         env2 = {**env, g.target.id: Val(elem_kind, v)}
         if g.ifs:
@@ -368,10 +388,20 @@ class FnTr:
                 return Val("bool", f"(taskIsRunnable s {t.term})")
             if f.id == "PriorityQueue" and not e.args:
                 return Val("newpq", None)
+            if f.id == "any" and len(e.args) == 1 and not e.keywords:
+                x = self.val(e.args[0], env)
+                if x.kind != "boollist":
+                    raise Unsupported(f"any() of a {x.kind}")
+                return Val("bool", f"({x.term}.any (fun b => b))")
             if f.id in env:
                 c = env[f.id]
                 if c.kind in ("weak", "optweak"):
                     return self.deref(c)
+                if c.kind == "closure":
+                    return self.inline_value(self.as_function(c.extra[0]), [self.val(a, env) for a in e.args],
+                                             {**c.extra[1], **{kk: vv for kk, vv in env.items() if isinstance(kk, tuple)}})
+                if c.kind == "boundmethod":
+                    return self.call_value(self.unalias(c, e), {**env, c.extra[2]: c.extra[0]})
             if f.id in self.u.funcs:
                 return self.inline_value(self.u.funcs[f.id], [self.val(a, env) for a in e.args], env)
         if isinstance(f, ast.Attribute):
@@ -515,6 +545,42 @@ class FnTr:
         finally:
             self.inline_depth -= 1
 
+    def as_function(self, node):
+        """a nested `def`; a generator function (one that yields values) is turned into the function that
+        returns the list of the yielded values: `yield v` -> append, lazily consumed or not makes no
+        difference for code that only reads the state"""
+        if not any(isinstance(n, (ast.Yield, ast.YieldFrom)) for n in ast.walk(node)):
+            return node
+        acc = "_yielded"
+
+        class Y(ast.NodeTransformer):
+            def visit_Expr(self, n):
+                if isinstance(n.value, ast.Yield) and n.value.value is not None:
+                    return ast.copy_location(ast.Expr(ast.Call(
+                        func=ast.Attribute(value=ast.Name(id=acc, ctx=ast.Load()), attr="append", ctx=ast.Load()),
+                        args=[n.value.value], keywords=[])), n)
+                if isinstance(n.value, (ast.Yield, ast.YieldFrom)):
+                    raise Unsupported("bare `yield` / `yield from` in a local generator function")
+                return n
+
+            def visit_Return(self, n):
+                raise Unsupported("return inside a local generator function")
+        new = ast.parse(ast.unparse(node)).body[0]
+        new = Y().visit(new)
+        for n in ast.walk(new):
+            if isinstance(n, (ast.Yield, ast.YieldFrom)):
+                raise Unsupported("`yield` used as an expression")
+        new.body = ([ast.Assign(targets=[ast.Name(id=acc, ctx=ast.Store())], value=ast.List(elts=[], ctx=ast.Load()))]
+                    + _doc_free(new.body) + [ast.Return(value=ast.Name(id=acc, ctx=ast.Load()))])
+        return ast.fix_missing_locations(new)
+
+    def unalias(self, c, call):
+        """`m = obj.method` ... `m(args)`  ->  the call `obj.method(args)` on the object as it was bound"""
+        base_name, attr = c.extra[2], c.extra[1]
+        return ast.fix_missing_locations(ast.copy_location(ast.Call(
+            func=ast.Attribute(value=ast.Name(id=base_name, ctx=ast.Load()), attr=attr, ctx=ast.Load()),
+            args=call.args, keywords=call.keywords), call))
+
     def user_call(self, cls, name, args, env, pure_only=False):
         args = self.declared(cls, name, args)
         kinds = [a.kind for a in args]
@@ -613,6 +679,10 @@ class FnTr:
                              lambda e2: self.block(st.orelse, e2, k))
         if isinstance(st, ast.Assign) and len(st.targets) == 1:
             return self.assign(st.targets[0], st.value, env, k)
+        if isinstance(st, ast.AnnAssign) and isinstance(st.target, ast.Name):
+            if st.value is None:
+                return k["next"](env)            # a bare declaration `x: T`
+            return self.assign(st.target, st.value, env, k)
         if isinstance(st, ast.Expr) and isinstance(st.value, ast.Call):
             return self.call_stmt(st.value, env, k, None)
         if isinstance(st, ast.Expr) and isinstance(st.value, ast.Await):
@@ -817,6 +887,9 @@ class FnTr:
                         bad = h(env) if h is not None else self.err("attributeError")
                         return f"if isPrio s {base.term} then\n{ind(good)}\nelse\n{ind(bad)}"
                     return self.do_user_call(cls, f.attr, [base] + argv, env, k, bind)
+        if isinstance(f, ast.Name) and f.id in env and env[f.id].kind == "boundmethod":
+            c = env[f.id]
+            return self.call_stmt(self.unalias(c, call), {**env, c.extra[2]: c.extra[0]}, k, target)
         if isinstance(f, ast.Name) and f.id in self.u.funcs and f.id not in ("task_is_runnable",):
             argv = [self.val(a, env) for a in call.args]
             return self.inline_stmt(self.u.funcs[f.id], argv, env, k, bind)
@@ -1152,7 +1225,7 @@ class NeedStatement(Exception):
     pass
 
 
-LIST_OF = {"rat": "ratlist", "optrat": "optratlist"}
+LIST_OF = {"rat": "ratlist", "optrat": "optratlist", "bool": "boollist"}
 # result kind and purity of the methods that can be reached recursively (needed before their body is done)
 RET_HINT = {("PriorityTask", "effective_priority"): ("rat", True),
             ("PriorityLock", "effective_priority"): ("optrat", True),
